@@ -2,10 +2,14 @@
 Size-aware reducibility (specification side, any number type).
 
 `Spec.Reducible α m` (`Lemmas/PrimGreedySpec.lean`) quantifies over ALL triples of sizes, including
-`0`.  For the size-weighted formula of Ward that is too strong even in exact arithmetic: in a field
-`ward a b dab 0 0 0 = 0/0 = 0`, which is below `dab` as soon as `0 < dab`
-(`Lemmas/FieldInstances.lean`, `not_reducible_ward`; the same held for the unclamped average, whose
-repaired, clamped form is `Reducible` outright, `reducible_average`).  The sizes that actually occur along a
+`0`.  For the UNCLAMPED size-weighted formulas of average and Ward that was too strong even in exact
+arithmetic: in a field `((0+0)·a + (0+0)·b − 0·dab)/(0+0+0) = 0/0 = 0`, which is below `dab` as soon
+as `0 < dab`.  (Both formulas have since been repaired in the crate by a clamp from below, and the
+clamped forms are `Reducible` outright in every ordered number type — `reducible_average`,
+`reducible_ward`, `Lemmas/PrimGreedySpec.lean` — so the former counterexample theorems
+`not_reducible_average`, `not_reducible_ward` of `Lemmas/FieldInstances.lean` are gone; the
+size-aware hypothesis below remains the one the exact-arithmetic run theorems are stated with, and
+it is the weaker one.)  The sizes that actually occur along a
 greedy run are positive (every cluster has at least one member), so the usable hypothesis is
 
 * `ReduciblePos α m`  the statement of `Reducible` restricted to `0 < sa`, `0 < sb`, `0 < sx`;
